@@ -434,13 +434,21 @@ EXTRA11 = {
 EXTRA12 = {
     'C17': ' Round 16: a priority that may be non-zero is stored only where the poll order of the same message is anchored (C17.R10).',
 }
+EXTRA13 = {
+    'C05': ' Round 17: decimals of every divisor (C05.R21); the raw value of a value list is printed only for a listed value or one that is not the replacement value (C05.R22).',
+    'C13': ' Round 17: compareTo answers "only the master address differs" only behind a comparison of the rest (C13.R19); a stored combination is never extended in place (C13.R20).',
+    'C14': ' Round 17: an arbitration is withdrawn in both members, address and check counter (C14.R24).',
+    'C18': ' Round 17: addPart stores only what it has taken out of the parse buffer (C18.R24).',
+    'C19': ' Round 17: attribute text reaches the dump only through dumpString (C19.R16).',
+    'C20': ' Round 17: the pending requests are drained on every no-signal tick (C20.R34).',
+}
 
 
 def main():
     checks = []
     for pid in sorted(CHECKS):
         c = dict(CHECKS[pid])
-        c['text'] = c['text'] + EXTRA.get(pid, '') + EXTRA2.get(pid, '') + EXTRA3.get(pid, '') + EXTRA4.get(pid, '') + EXTRA5.get(pid, '') + EXTRA6.get(pid, '') + EXTRA7.get(pid, '') + EXTRA8.get(pid, '') + EXTRA9.get(pid, '') + EXTRA10.get(pid, '') + EXTRA11.get(pid, '') + EXTRA12.get(pid, '')
+        c['text'] = c['text'] + EXTRA.get(pid, '') + EXTRA2.get(pid, '') + EXTRA3.get(pid, '') + EXTRA4.get(pid, '') + EXTRA5.get(pid, '') + EXTRA6.get(pid, '') + EXTRA7.get(pid, '') + EXTRA8.get(pid, '') + EXTRA9.get(pid, '') + EXTRA10.get(pid, '') + EXTRA11.get(pid, '') + EXTRA12.get(pid, '') + EXTRA13.get(pid, '')
         if pid in ('C01', 'C02', 'C03', 'C05', 'C06', 'C07', 'C08', 'C09', 'C10', 'C11', 'C13', 'C14', 'C15', 'C19', 'C20'):
             c['technique'] += '; finite evaluation of inline accessors / conditions from the typed AST on enumerated model states'
         checks.append({
